@@ -46,56 +46,115 @@ func arrive(dly int) {
 	}
 }
 
-// arriveAtLine makes a task arrive when the tasks of the phase have written
-// line lines to the process log (or all nq queries are through): the request
-// comes in while another one is held up at that log statement.
-func arriveAtLine(w *logSink, lines int, done *atomic.Int32, nq int) {
-	for w.lines.Load() < int64(lines) && int(done.Load()) < nq {
+// arriveAtLine makes a task arrive when query ref of the phase has written
+// line lines to the process log (or is through): the request comes in while
+// the other one is held up at that log statement.
+func arriveAtLine(w *logSink, ref, lines int) {
+	for w.qlines[ref].Load() < int64(lines) && !w.qdone[ref].Load() {
 		sched.Yield()
 	}
 }
 
-// genPar draws one concurrent phase.  In half of the phases the operations
-// are aimed at each other: a CNAME chain is added first (sequentially), the
-// overlapped queries ask for names of that chain, and the overlapped admin
-// operations mostly hit entries of the part of the chain that a query passes,
-// with replacements that land on names further along — a change of the table
-// matters to a request in flight only if it touches what the request resolves
-// through.
-func genPar(t *rapid.T, allNames []string) (ops []Op) {
+// hopEntry returns the entry of tab that takes a resolution from name to the
+// CNAME target next.
+func hopEntry(tab []Entry, name, next string) (Entry, bool) {
+	for _, e := range tab {
+		if k, _ := e.kind(); k == vCNAME && patMatches(e.D, name) && strings.ToLower(e.A) == next {
+			return e, true
+		}
+	}
+	return Entry{}, false
+}
+
+// chainStarts lists the names whose resolution against tab follows at least
+// one CNAME hop, with the names it passes; if some of them have an outcome the
+// documentation fixes, only those.
+func chainStarts(tab []Entry, allNames []string) (starts []string, paths map[string][]string) {
+	paths = map[string][]string{}
+	var open []string
+	for _, n := range allNames {
+		ex := resolve(tab, n, dns.TypeA)
+		if len(ex.chain) == 0 {
+			continue
+		}
+		paths[n] = append([]string{n}, ex.chain...)
+		if ex.kind == oUnspecified {
+			open = append(open, n)
+		} else {
+			starts = append(starts, n)
+		}
+	}
+	if len(starts) == 0 {
+		starts = open
+	}
+	return starts, paths
+}
+
+// trackOp applies a generated operation to the generator's picture of the
+// table (the admin operations of a concurrent phase in index order: the real
+// order may differ, the picture only serves to aim operations).
+func trackOp(tab []Entry, op Op) []Entry {
+	r := &runner{table: tab}
+	switch op.K {
+	case "add", "delete", "update":
+		if a, err := r.resolveAdm(op); err == nil {
+			tab, _ = admApply(tab, a)
+		}
+	case "par":
+		for _, ao := range op.Adm {
+			r.table = tab
+			if a, err := r.resolveAdm(ao); err == nil {
+				tab, _ = admApply(tab, a)
+			}
+		}
+	}
+	return tab
+}
+
+// genPar draws one concurrent phase; tab is the generator's picture of the
+// table.  In two thirds of the phases the operations are aimed at each other:
+// the overlapped queries ask for names that the table resolves through CNAME
+// entries (a chain is added first, sequentially, if there is none), and the
+// overlapped admin operations mostly hit an entry that such a query passes,
+// with a replacement that lands on a name further along its path, arriving
+// while that query is under way — a change of the table matters to a request
+// in flight only if it touches what the request resolves through.
+func genPar(t *rapid.T, allNames []string, tab []Entry) (ops []Op) {
 	op := Op{K: "par",
 		Seed: rapid.Uint64().Draw(t, "par_seed"),
 		Pct:  rapid.SampledFrom([]int{20, 50, 80}).Draw(t, "par_pct"),
 		Lst:  rapid.IntRange(0, 3).Draw(t, "par_list") == 0,
 	}
-	var chain []Entry
-	var ns []string
-	if rapid.Bool().Draw(t, "par_aimed") {
-		chain, ns = genChainNames(t)
-		for _, e := range chain {
-			e := e
-			ops = append(ops, Op{K: "add", E: &e})
+	var (
+		starts []string
+		paths  map[string][]string
+	)
+	if rapid.IntRange(0, 2).Draw(t, "par_aimed") != 0 {
+		starts, paths = chainStarts(tab, allNames)
+		if len(starts) == 0 || rapid.IntRange(0, 3).Draw(t, "par_new_chain") == 0 {
+			for _, e := range genChain(t) {
+				e := e
+				a := Op{K: "add", E: &e}
+				ops = append(ops, a)
+				tab = trackOp(tab, a)
+			}
+			starts, paths = chainStarts(tab, allNames)
 		}
 		op.LogY = true
 	} else {
 		op.LogY = rapid.IntRange(0, 3).Draw(t, "par_logy") != 0
 	}
-	k := len(ns) - 1
 	aimed := func(label string) bool {
-		return len(ns) > 0 && rapid.IntRange(0, 3).Draw(t, label) != 0
+		return len(starts) > 0 && rapid.IntRange(0, 3).Draw(t, label) != 0
 	}
-	// The queries; starts[q] is the index of the chain name an aimed query asks.
-	var starts []int
-	for i, n := 0, rapid.IntRange(1, 4).Draw(t, "par_n_q"); i < n; i++ {
+	nq := rapid.IntRange(1, 4).Draw(t, "par_n_q")
+	if len(starts) > 0 {
+		nq = rapid.IntRange(1, 2).Draw(t, "par_n_q_aimed")
+	}
+	for i := 0; i < nq; i++ {
 		var name string
 		if aimed("par_q_aimed") {
-			// Mostly from the front part, so that there is chain left to follow.
-			s := rapid.IntRange(0, k).Draw(t, "par_q_start")
-			if s > 0 && rapid.Bool().Draw(t, "par_q_front") {
-				s = rapid.IntRange(0, s-1).Draw(t, "par_q_start2")
-			}
-			starts = append(starts, s)
-			name = ns[s]
+			name = rapid.SampledFrom(starts).Draw(t, "par_q_start")
 		} else {
 			name = genQName(t, allNames)
 		}
@@ -111,38 +170,38 @@ func genPar(t *rapid.T, allNames []string) (ops []Op) {
 		op.Qs = append(op.Qs, q)
 	}
 	for i, n := 0, rapid.SampledFrom([]int{1, 1, 1, 2, 2, 3}).Draw(t, "par_n_adm"); i < n; i++ {
-		// from: where the query this operation is aimed at enters the chain.
-		from := 0
-		if len(starts) > 0 {
-			from = rapid.SampledFrom(starts).Draw(t, "par_adm_ref")
-		}
-		// hit: the chain entry the operation targets, at or after from.
+		// The query this operation is timed against, and what it passes.
+		ref := rapid.IntRange(0, nq-1).Draw(t, "par_adm_ref")
+		path := paths[strings.ToLower(op.Qs[ref].Name)]
+		// hit: the hop of that path whose entry the operation targets.
 		hit := 0
-		if len(chain) > 0 {
-			hit = rapid.IntRange(min(from, len(chain)-1), len(chain)-1).Draw(t, "par_adm_hit")
+		if len(path) > 1 {
+			hit = rapid.IntRange(0, len(path)-2).Draw(t, "par_adm_hit")
 		}
 		replacement := func() Entry {
-			if aimed("par_n_aimed") {
-				// A name further along the chain than the entry hit.
-				d := ns[rapid.IntRange(min(hit+1, k), k).Draw(t, "par_n_name")]
+			if len(path) > 1 && rapid.IntRange(0, 3).Draw(t, "par_n_aimed") != 0 {
+				// A name further along the path than the entry hit.
+				d := path[rapid.IntRange(hit+1, len(path)-1).Draw(t, "par_n_name")]
 				return Entry{D: d, A: genAnswer(t, d)}
 			}
 			return genEntry(t)
 		}
-		// target sets the target of a delete / update: an entry of the chain
+		// target sets the target of a delete / update: the entry of that hop
 		// (sent as given), an index into the live table, or an entry that may be
 		// absent.
 		target := func(a *Op) {
-			switch {
-			case aimed("par_tg_aimed"):
-				e := chain[hit]
-				a.Missing, a.E = true, &e
-			case rapid.IntRange(0, 7).Draw(t, "par_tg_missing") == 0:
+			if len(path) > 1 && rapid.IntRange(0, 3).Draw(t, "par_tg_aimed") != 0 {
+				if e, ok := hopEntry(tab, path[hit], path[hit+1]); ok {
+					a.Missing, a.E = true, &e
+					return
+				}
+			}
+			if rapid.IntRange(0, 7).Draw(t, "par_tg_missing") == 0 {
 				e := genEntry(t)
 				a.Missing, a.E = true, &e
-			default:
-				a.Idx = rapid.IntRange(0, 9).Draw(t, "par_tg_idx")
+				return
 			}
+			a.Idx = rapid.IntRange(0, 9).Draw(t, "par_tg_idx")
 		}
 		var a Op
 		switch rapid.SampledFrom([]string{"update", "update", "update", "add", "delete"}).Draw(t, "par_adm_kind") {
@@ -157,8 +216,10 @@ func genPar(t *rapid.T, allNames []string) (ops []Op) {
 			a = Op{K: "update", N: &n}
 			target(&a)
 		}
-		// A query passes some dozens of scheduling points on its way through
-		// the server: the admin operation arrives anywhere along it.
+		// With the verbose log, the operation arrives when query Ref has written
+		// Dly/3 lines; otherwise after Dly scheduling points of its own (a query
+		// passes some dozens of them on its way through the server).
+		a.Ref = ref
 		a.Dly = rapid.IntRange(0, 44).Draw(t, "par_adm_delay")
 		op.Adm = append(op.Adm, a)
 	}
@@ -175,6 +236,7 @@ type admReq struct {
 	path   string
 	body   []byte
 	dly    int
+	ref    int
 	// outcome
 	code int
 	err  error
@@ -255,29 +317,35 @@ func goid() uint64 {
 // in the log).
 type logSink struct {
 	mu     sync.Mutex
-	tasks  map[uint64]bool
+	tasks  map[uint64]int // goroutine of a task -> its query number, or -1
 	in     atomic.Int32
 	yields atomic.Int64
-	lines  atomic.Int64 // lines written by tasks
+	// per query of the phase: lines it has written, and whether it is through
+	qlines []atomic.Int64
+	qdone  []atomic.Bool
 }
 
-func (w *logSink) register() {
+// register makes the calling goroutine known as a task: query number q of
+// the phase, or -1.
+func (w *logSink) register(q int) {
 	g := goid()
 	w.mu.Lock()
-	w.tasks[g] = true
+	w.tasks[g] = q
 	w.mu.Unlock()
 }
 
 func (w *logSink) Write(p []byte) (int, error) {
 	g := goid()
 	w.mu.Lock()
-	isTask := w.tasks[g]
+	q, isTask := w.tasks[g]
 	w.mu.Unlock()
 	if !isTask {
 		return len(p), nil
 	}
 	w.in.Add(1)
-	w.lines.Add(1)
+	if q >= 0 {
+		w.qlines[q].Add(1)
+	}
 	aghlog.SetLevel(aghlog.OFF)
 	if sched.Yield() {
 		w.yields.Add(1)
@@ -340,7 +408,7 @@ type parQuery struct {
 }
 
 func (r *runner) resolveAdm(a Op) (*admReq, error) {
-	q := &admReq{k: a.K, dly: a.Dly}
+	q := &admReq{k: a.K, dly: a.Dly, ref: a.Ref}
 	switch a.K {
 	case "add":
 		q.n = *a.E
@@ -416,30 +484,29 @@ func (r *runner) par(op Op) error {
 		qs = append(qs, pq)
 		byID[pq.id] = pq
 	}
-	sink := &logSink{tasks: map[uint64]bool{}}
+	sink := &logSink{tasks: map[uint64]int{}, qlines: make([]atomic.Int64, len(qs)), qdone: make([]atomic.Bool, len(qs))}
 	useLog := op.LogY && !logPoisoned
-	var qDone atomic.Int32
 	var names []string
 	var fns []func()
 	for _, a := range adm {
 		names = append(names, "rewrite/"+a.k)
 		fns = append(fns, func() {
-			sink.register()
-			if useLog {
-				arriveAtLine(sink, a.dly/3, &qDone, len(qs))
+			sink.register(-1)
+			if useLog && a.ref < len(qs) {
+				arriveAtLine(sink, a.ref, a.dly/3)
 			} else {
 				arrive(a.dly)
 			}
 			a.code, _, a.err = r.n.Mux.Do(a.method, a.path, a.body)
 		})
 	}
-	for _, pq := range qs {
+	for j, pq := range qs {
 		names = append(names, "query")
 		fns = append(fns, func() {
-			sink.register()
+			sink.register(j)
 			arrive(pq.op.Dly)
 			pq.rep = r.n.Do(&dnsnode.Query{Proto: pq.op.Proto, Addr: netip.MustParseAddrPort("192.0.2.1:40000"), Name: pq.op.Name, Qtype: pq.op.Qt, MsgID: pq.id})
-			qDone.Add(1)
+			sink.qdone[j].Store(true)
 		})
 	}
 	var (
@@ -450,7 +517,7 @@ func (r *runner) par(op Op) error {
 	if op.Lst {
 		names = append(names, "rewrite/list")
 		fns = append(fns, func() {
-			sink.register()
+			sink.register(-1)
 			listCode, listBody, listErr = r.n.Mux.Do("GET", "/control/rewrite/list", nil)
 		})
 	}
